@@ -63,6 +63,48 @@ def check_initialize_row_carry_over(ctx, consequence: str):
         raise AnalysisError("File.initialize_row: no feasible path")
 
 
+def _env_dictcomp(ctx, f, node):
+    """The dict comprehension that yields the tracked values: the argument itself, or the returned expression of
+    a `self.<helper>(env_deps)` call."""
+    if isinstance(node, ast.DictComp):
+        return node
+    if isinstance(node, ast.Call) and isinstance(node.func, ast.Attribute) and isinstance(node.func.value, ast.Name) and node.func.value.id == "self":
+        try:
+            h = ctx.prog.func(f"executor.Executor.{node.func.attr}")
+        except AnalysisError:
+            return None
+        rets = [r.value for r in ast.walk(h.node) if isinstance(r, ast.Return) and r.value is not None]
+        if len(rets) == 1 and isinstance(rets[0], ast.DictComp):
+            return rets[0]
+    return None
+
+
+def _env_values_expr_ok(ctx, f, node):
+    """{name: <base_env>.get(name) for name in env_deps}: every tracked name, looked up in base_env, *without a
+    default* (an undefined variable must stay distinguishable from an empty one)."""
+    dc = _env_dictcomp(ctx, f, node)
+    if dc is None:
+        return False, "not a comprehension over the tracked names"
+    if len(dc.generators) != 1 or dc.generators[0].ifs:
+        return False, "filtered comprehension"
+    v = dc.value
+    if not (isinstance(v, ast.Call) and isinstance(v.func, ast.Attribute) and v.func.attr == "get"):
+        return False, "value is not a .get() lookup"
+    if len(v.args) != 1 or v.keywords:
+        return False, "lookup with a default: an undefined variable and one set to that default share a digest"
+    recv = ast.unparse(v.func.value)
+    if recv != "self.base_env":
+        # a local bound to self.base_env in the enclosing function
+        owner = None
+        for fn in ast.walk(ctx.prog.module("executor").tree):
+            if isinstance(fn, (ast.FunctionDef, ast.AsyncFunctionDef)) and any(x is dc for x in ast.walk(fn)):
+                owner = fn
+        binds = [a.value for a in ast.walk(owner) if isinstance(a, ast.Assign) and len(a.targets) == 1 and isinstance(a.targets[0], ast.Name) and a.targets[0].id == recv] if owner is not None else []
+        if not (binds and all(ast.unparse(b) == "self.base_env" for b in binds)):
+            return False, f"values are read from {recv}, not from base_env"
+    return True, "ok"
+
+
 def check_from_inp_call_sites(ctx, consequence: str):
     """Both executor sites that compute an input digest pass the same five ingredients from the step's own row."""
     import re
@@ -75,18 +117,21 @@ def check_from_inp_call_sites(ctx, consequence: str):
                 n += 1
                 args = [ast.unparse(a) for a in c.args]
                 kws = {k.arg: ast.unparse(k.value) for k in c.keywords}
-                ok = len(args) >= 3 and args[0] == "run.step.label" and "all_hashes" in args[1] and "for name in env_deps" in args[2] and kws.get("shell") == "shell" and kws.get("env_overrides") == "env_overrides"
+                env_ok, env_why = _env_values_expr_ok(ctx, f, c.args[2]) if len(c.args) >= 3 else (False, "missing")
+                ok = len(args) >= 3 and args[0] == "run.step.label" and "all_hashes" in args[1] and env_ok and kws.get("shell") == "shell" and kws.get("env_overrides") == "env_overrides"
+                if not env_ok:
+                    args[2] = f"{args[2]} [{env_why}]"
                 ctx.check(ok, f.fq, "from_inp(label, all input hashes, all env deps, shell=, env_overrides=)", f"call passes {args} {kws}: {consequence}", "all ingredients passed", where=ctx.where_of(f, c))
                 src = re.sub(r"\s+", " ", ast.unparse(f.node))
                 ctx.check("shell = run.step.uses_shell()" in src and "env_overrides = run.step.get_env_overrides()" in src, f.fq, "shell and overrides come from the step's own row", "provenance changed", "own row")
     if n != 2:
         raise AnalysisError(f"expected 2 StepHash.from_inp call sites in executor.py, found {n}")
     # sibling agreement: the two sites read the environment from the same source (the values are hash ingredients)
-    envs = sorted({ast.unparse(c.args[2]) for f in ex.all_funcs.values() for c in calls_in(f.node) if ast.unparse(c.func) == "StepHash.from_inp" and len(c.args) >= 3})
+    envs = sorted({ast.unparse(_env_dictcomp(ctx, f, c.args[2]) or c.args[2]) for f in ex.all_funcs.values() for c in calls_in(f.node) if ast.unparse(c.func) == "StepHash.from_inp" and len(c.args) >= 3})
     ctx.check(len(envs) == 1, "executor.Executor", "both digest sites take the tracked variables from the same environment", f"the two sites read the environment differently ({envs}): {consequence}", envs[0] if envs else "")
     # and that environment is the one the command runs in
     rc = ctx.prog.func("executor.Executor._run_command")
-    ctx.check("self.base_env" in ast.unparse(rc.node) and all("self.base_env" in e for e in envs), rc.fq, "the hashed environment is the one the command is started with (base_env)", f"digest sites hash {envs}, the command runs with base_env: {consequence}", "base_env")
+    ctx.check("self.base_env" in ast.unparse(rc.node), rc.fq, "the command is started with base_env (the environment the digest sites read)", f"the command no longer runs with base_env: {consequence}", "base_env")
 
 
 def check_registration_keeps_subs(ctx, consequence: str):
